@@ -283,10 +283,12 @@ def instances(tier):
                         continue
                     inst.append(dict(label='geometry[rings=%d,ducts=%d,se2=%s,wire=%s]' % (n, nduct, se2, wire), body=body_geometry,
                                      params={'n_ring': n, 'n_duct': nduct, 'se2': se2, 'wire': wire}, timeout_ms=120000))
-    for n in ((2, 3, 4, 5, 6, 8) if tier == 'quick' else tuple(range(2, 21))):
+    for n in ((2, 3, 4, 5, 6, 8) if tier == 'quick' else tuple(range(2, 15))):
         for nduct in (1, 2, 3):
             if tier == 'quick' and n > 5 and nduct != 2:
                 continue
+            if tier != 'quick' and n > 8 and nduct > 1:
+                continue          # multi-duct tables beyond 8 rings take tens of minutes each (DESIGN 7)
             inst.append(dict(label='topology[rings=%d,ducts=%d]' % (n, nduct), body=body_topology,
                              params={'n_ring': n, 'n_duct': nduct}, timeout_ms=600000, check_vacuity=False))
     for n in (2, 5):
@@ -304,7 +306,7 @@ def main():
                      'Part B: the index tables built by the real Subchannel/PinLattice constructors are asserted point-wise and '
                      'the universally quantified topology statements are decided with the subchannel / pin index as a solver '
                      'variable (finite-domain; exhaustive over the enumerated ring and duct counts).'),
-        bounds={'ring counts': '2,3,4,7 geometry; 2..6,8 topology (quick) / 2..20 (thorough)', 'ducts': '1..3',
+        bounds={'ring counts': '2,3,4,7 geometry; 2..6,8 topology (quick) / geometry 2..20, topology 2..14 with one duct and 2..8 with 2-3 ducts (thorough)', 'ducts': '1..3',
                 'dimensions': 'all admissible positive pitch/diameter/wire/wall/bypass/clearance values (pins fit, wire fits)',
                 'SE2 flag': 'on/off', 'wire': 'with / without'},
         outside=['centroid coordinates (xy) vs adjacency and six-fold symmetry: used numerically by C07 only, not claimed here',
